@@ -11,8 +11,8 @@
 //   tt.add <row> | tt.get <id> | tt.update <row> | tt.remove <id> | tt.exists <id> | tt.ids | tt.find <path>
 //   tt.getc <field> <id> | tt.setc <field> <id> <value>
 //   tt.raw
-//   pl.add <row> | pl.get <id> | pl.update <row> | pl.remove <id> | pl.exists <id> | pl.ids | pl.raw
-//   pe.add <row> <throw_if_duplicate> | pe.get <list> <track> | pe.remove <list> <entity> | pe.clear <list> | pe.raw
+//   tpl.add <row> | tpl.get <id> | tpl.update <row> | tpl.remove <id> | tpl.exists <id> | tpl.ids | tpl.raw
+//   tpe.add <row> <throw_if_duplicate> | tpe.get <list> <track> | tpe.remove <list> <entity> | tpe.clear <list> | tpe.raw
 //   inf.get | inf.setcpi <v> | inf.raw
 #include <chrono>
 #include <cstring>
@@ -381,19 +381,19 @@ DJV_CMD(tt_setc, "tt.setc")
 DJV_CMD(tt_raw, "tt.raw") { return raw_table("Track"); }
 
 // ------------------------------------------------------------------- Playlist
-DJV_CMD(pl_add, "pl.add")
+DJV_CMD(pl_add, "tpl.add")
 {
     cursor c{a, 1};
     auto r = rd_playlist_row(c);
     c.done();
     return wrv(LIB().playlist().add(r));
 }
-DJV_CMD(pl_get, "pl.get")
+DJV_CMD(pl_get, "tpl.get")
 {
     auto r = LIB().playlist().get(parse_i64(a.at(1)));
     return r ? wr_playlist_row(*r) : "none";
 }
-DJV_CMD(pl_update, "pl.update")
+DJV_CMD(pl_update, "tpl.update")
 {
     cursor c{a, 1};
     auto r = rd_playlist_row(c);
@@ -401,23 +401,23 @@ DJV_CMD(pl_update, "pl.update")
     LIB().playlist().update(r);
     return "";
 }
-DJV_CMD(pl_remove, "pl.remove")
+DJV_CMD(pl_remove, "tpl.remove")
 {
     LIB().playlist().remove(parse_i64(a.at(1)));
     return "";
 }
-DJV_CMD(pl_exists, "pl.exists")
+DJV_CMD(pl_exists, "tpl.exists")
 {
     return LIB().playlist().exists(parse_i64(a.at(1))) ? "1" : "0";
 }
-DJV_CMD(pl_ids, "pl.ids")
+DJV_CMD(pl_ids, "tpl.ids")
 {
     return id_list(LIB().playlist().all_ids(), true);
 }
-DJV_CMD(pl_raw, "pl.raw") { return raw_table("Playlist"); }
+DJV_CMD(pl_raw, "tpl.raw") { return raw_table("Playlist"); }
 
 // ------------------------------------------------------------- PlaylistEntity
-DJV_CMD(pe_add, "pe.add")
+DJV_CMD(pe_add, "tpe.add")
 {
     cursor c{a, 1};
     auto r = rd_entity_row(c);
@@ -426,22 +426,22 @@ DJV_CMD(pe_add, "pe.add")
     c.done();
     return wrv(LIB().playlist_entity().add_back(r, dup));
 }
-DJV_CMD(pe_get, "pe.get")
+DJV_CMD(pe_get, "tpe.get")
 {
     auto r = LIB().playlist_entity().get(parse_i64(a.at(1)), parse_i64(a.at(2)));
     return r ? wr_entity_row(*r) : "none";
 }
-DJV_CMD(pe_remove, "pe.remove")
+DJV_CMD(pe_remove, "tpe.remove")
 {
     LIB().playlist_entity().remove(parse_i64(a.at(1)), parse_i64(a.at(2)));
     return "";
 }
-DJV_CMD(pe_clear, "pe.clear")
+DJV_CMD(pe_clear, "tpe.clear")
 {
     LIB().playlist_entity().clear(parse_i64(a.at(1)));
     return "";
 }
-DJV_CMD(pe_raw, "pe.raw") { return raw_table("PlaylistEntity"); }
+DJV_CMD(pe_raw, "tpe.raw") { return raw_table("PlaylistEntity"); }
 
 // ---------------------------------------------------------------- Information
 DJV_CMD(inf_get, "inf.get")
